@@ -52,6 +52,7 @@ def run(ctx):
     check_operators(ctx)
     check_stripws(ctx)
     check_stripws_simulation(ctx)
+    check_reindent_simulation(ctx)
     # the serializer right-strips exactly the lines outside quoted text: its idea of a quoted region must agree with the lexer's
     check_serializer(ctx, 'R10.4', [r for r in SERIALIZER_REGIONS if r[0].startswith(('single-quoted', 'double-quoted'))])
     from .. import rules_base as RB
@@ -444,3 +445,168 @@ def check_stripws_simulation(ctx, rid='R10.9'):
     for why, items in sorted(bad.items()):
         ctx.ob(rid, f'simulation:{why}', loc, f'strip_whitespace reaches its normal form on every one of {n} small trees (w blanks, n line break, x name, c comment; '
                'T nested group, P parenthesis, G comment group, L identifier list)', False, f'{len(items)} tree(s): {why}, e.g. {items[:3]}')
+
+
+# ---------------------------------------------------------------------------
+# R10.10: strip_whitespace + reindent interpreted on statement trees
+
+CLAUSE_WORDS = {'FROM', 'WHERE', 'AND', 'OR', 'GROUP BY', 'ORDER BY', 'HAVING', 'LIMIT', 'UNION', 'UNION ALL', 'EXCEPT', 'SET', 'JOIN', 'LEFT JOIN', 'INNER JOIN',
+                'LEFT OUTER JOIN', 'CROSS JOIN', 'VALUES'}
+
+
+def _reindent_statements():
+    """(name, tree description).  Leaves: ('kw', text) Keyword, ('dml', text), ('n', text) inside Identifier, ('i', text) integer, ('p', text)
+    punctuation, ('c', text) comparison operator, 'w' one blank, 'nl' line break; groups ('I'|'L'|'W'|'P'|'C', [...])."""
+    w = 'w'
+
+    def ident(x):
+        return ('I', [('n', x)])
+
+    def cmp_(a, b):
+        return ('C', [ident(a), w, ('c', '='), w, ('i', b)])
+
+    def lst(*xs):
+        out = []
+        for i, x in enumerate(xs):
+            if i:
+                out += [('p', ','), w]
+            out.append(ident(x))
+        return ('L', out)
+    sel = [('dml', 'select'), w, lst('a', 'b'), w, ('kw', 'from'), w, ident('t')]
+    where = ('W', [('kw', 'where'), w, cmp_('x', '1'), w, ('kw', 'and'), w, cmp_('y', '2'), w, ('kw', 'or'), w, cmp_('z', '3')])
+    out = [('select-from', sel), ('select-from-where', sel + [w, where]),
+           ('leading blank', [w] + sel), ('leading line break', ['nl'] + sel + [w, where]),
+           ('group/order/limit', sel + [w, ('W', [('kw', 'where'), w, cmp_('x', '1'), w]), ('kw', 'group by'), w, ident('a'), w, ('kw', 'having'), w, cmp_('a', '1'), w,
+                                        ('kw', 'order by'), w, ident('a'), w, ('kw', 'limit'), w, ('i', '5')]),
+           ('join', [('dml', 'select'), w, ident('a'), w, ('kw', 'from'), w, ident('t'), w, ('kw', 'left outer join'), w, ident('u'), w, ('kw', 'on'), w, cmp_('k', '1'),
+                     w, ('kw', 'join'), w, ident('v'), w, ('kw', 'on'), w, cmp_('j', '2')]),
+           ('union', [('dml', 'select'), w, ident('a'), w, ('kw', 'from'), w, ident('t'), w, ('kw', 'union all'), w, ('dml', 'select'), w, ident('b'), w, ('kw', 'from'), w, ident('u')]),
+           ('update-set', [('dml', 'update'), w, ident('t'), w, ('kw', 'set'), w, cmp_('a', '1'), w, ('W', [('kw', 'where'), w, cmp_('b', '2')])]),
+           ('subquery', [('dml', 'select'), w, ident('a'), w, ('kw', 'from'), w,
+                         ('I', [('P', [('p', '('), ('dml', 'select'), w, ident('b'), w, ('kw', 'from'), w, ident('u'), w, ('W', [('kw', 'where'), w, cmp_('c', '1')]), ('p', ')')]), w, ident('s')])]),
+           ('between', sel + [w, ('W', [('kw', 'where'), w, ident('x'), w, ('kw', 'between'), w, ('i', '1'), w, ('kw', 'and'), w, ('i', '2'), w, ('kw', 'and'), w, cmp_('y', '2')])]),
+           ('two leading line breaks', ['nl', 'nl'] + sel),
+           ('blank, line break, blank in front', [w, 'nl', w] + sel + [w, where]),
+           ('statement that starts with a parenthesised select', [('P', [('p', '('), ('dml', 'select'), w, ident('b'), w, ('kw', 'from'), w, ident('u'), ('p', ')')]), w,
+                                                                 ('kw', 'union'), w, ('P', [('p', '('), ('dml', 'select'), w, ident('c'), ('p', ')')])]),
+           ('lower and upper case, two statements', None)]
+    return [o for o in out if o[1] is not None]
+
+
+def check_reindent_simulation(ctx):
+    """reindent decided on concrete statement trees: StripWhitespaceFilter.process then ReindentFilter.process (sources interpreted,
+    with every helper and the offset/indent context managers), then the serializer's line handling.  Afterwards every clause
+    keyword starts its own line, nothing but whitespace changed, the text has no leading whitespace and no line ends in a blank."""
+    repo = ctx.repo
+    ctx.rule('R10.10', 'strip_whitespace + reindent interpreted on statement trees: every clause keyword starts its own line, significant tokens untouched', floor=1)
+    cs = RF.filter_class(ctx, 'StripWhitespaceFilter')
+    cr = RF.filter_class(ctx, 'ReindentFilter')
+    fr = cr.methods['process']
+    loc = f'{fr.mod.relpath}:{fr.node.lineno}'
+    WSP, NL, DML, KW, NAME, PUN, CMP, INT = (TT(('Text', 'Whitespace')), TT(('Text', 'Whitespace', 'Newline')), TT(('Keyword', 'DML')), TT(('Keyword',)), TT(('Name',)),
+                                             TT(('Punctuation',)), TT(('Operator', 'Comparison')), TT(('Literal', 'Number', 'Integer')))
+    kinds = {'kw': KW, 'dml': DML, 'n': NAME, 'i': INT, 'p': PUN, 'c': CMP}
+    classes = {k: repo.classes.get(f'sqlparse.sql.{v}') for k, v in (('S', 'Statement'), ('I', 'Identifier'), ('L', 'IdentifierList'), ('W', 'Where'), ('P', 'Parenthesis'), ('C', 'Comparison'))}
+    ctx.need(all(classes.values()), 'sqlparse.sql classes not found')
+
+    def build(desc, upper):
+        out = []
+        for d in desc:
+            if d == 'w':
+                t_ = ME.AbsToken(repo, ttype=WSP, value=' ')
+            elif d == 'nl':
+                t_ = ME.AbsToken(repo, ttype=NL, value='\n')
+            elif d[0] in kinds:
+                v = d[1].upper() if (upper and d[0] in ('kw', 'dml')) else d[1]
+                t_ = ME.AbsToken(repo, ttype=kinds[d[0]], value=v)
+            else:
+                t_ = group(classes[d[0]], build(d[1], upper))
+            if not t_.is_group:
+                t_.parent = None
+            out.append(t_)
+        return out
+
+    def group(cls, kids):
+        g = ME.AbsToken(repo, cls=cls)
+        g.tokens, g.parent, g.is_whitespace = kids, None, False
+        g.value = ''.join(k.value for k in kids)
+        for k in kids:
+            k.parent = g
+        return g
+
+    def leaves(t):
+        if t.is_group:
+            for k in t.tokens:
+                yield from leaves(k)
+        else:
+            yield t
+
+    def new_filter(cls):
+        init = repo.lookup_method(cls, '__init__')
+        o = ME.Obj(_cls=cls)
+        if init is not None:
+            ev = ME.Evaluator(ctx, init.mod, cls)
+            ev.effects = True
+            env = {init.params[0]: o}
+            for p_, d_ in zip(init.params[len(init.params) - len(init.node.args.defaults):], init.node.args.defaults):
+                env[p_] = ev.ev(d_, {})
+            ME.run_function(ev, init.node, env)
+        return o
+
+    def apply(cls, flt, st):
+        f = cls.methods['process']
+        ev = ME.Evaluator(ctx, f.mod, cls)
+        ev.effects = True
+        env = {f.params[0]: flt, f.params[1]: st}
+        for p_, d_ in zip(f.params[len(f.params) - len(f.node.args.defaults):], f.node.args.defaults):
+            env[p_] = ev.ev(d_, {})
+        ME.run_function(ev, f.node, env, max_steps=20000)
+    bad = {}
+    n = 0
+    for name, desc in _reindent_statements():
+        for upper in (False, True):
+            st = group(classes['S'], build(desc, upper))
+            before = [t for t in leaves(st) if not WSP.contains(t.ttype)]
+            try:
+                apply(cs, new_filter(cs), st)
+                apply(cr, new_filter(cr), st)
+            except (ME.Unsupported, ME.Unknown) as e:
+                ctx.ob('R10.10', 'simulation', loc, 'strip_whitespace and reindent are evaluable on statement trees', None, f'{name}: {e}')
+                return
+            except ME.Crash as e:
+                bad.setdefault('crash', []).append(f'{name}: {e}')
+                continue
+            n += 1
+            after = list(leaves(st))
+            sig = [t for t in after if not WSP.contains(t.ttype)]
+            raw = ''.join(t.value for t in after)
+            text = '\n'.join(l_.rstrip() for l_ in raw.split('\n'))          # the serializer's line handling
+            if len(sig) != len(before) or any(a is not b for a, b in zip(sig, before)):
+                bad.setdefault('a significant token is lost, added or moved', []).append(f'{name} -> {text!r}')
+                continue
+            if text != text.lstrip():
+                bad.setdefault('the formatted statement starts with whitespace', []).append(f'{name} -> {text!r}')
+            pos = 0
+            between = False
+            first_sig = True
+            for t in after:
+                if not WSP.contains(t.ttype):
+                    word = ' '.join(t.value.upper().split())
+                    if KW.contains(t.ttype) and not first_sig and (word in CLAUSE_WORDS or word.endswith('JOIN')) and not (word == 'AND' and between):
+                        line_start = raw.rfind('\n', 0, pos) + 1
+                        if raw[line_start:pos].strip() != '' or (line_start == 0 and raw[:pos].strip() == '' and False):
+                            bad.setdefault('a clause keyword does not start its own line', []).append(f'{name}: {t.value!r} in {text!r}')
+                        elif line_start == 0:
+                            bad.setdefault('a clause keyword does not start its own line', []).append(f'{name}: {t.value!r} in {text!r}')
+                    if word == 'BETWEEN':
+                        between = True
+                    elif word == 'AND' and between:
+                        between = False
+                    first_sig = False
+                pos += len(t.value)
+    ctx.info['reindent_simulated_statements'] = n
+    if not bad:
+        ctx.ob('R10.10', 'simulation', loc, f'{n} statement trees (select/from/where and-or, group/order/having/limit, joins, union, update-set, subquery, BETWEEN, '
+               'leading whitespace; lower and upper case): every clause keyword starts its own line, no token but whitespace changed', True)
+    for why, items in sorted(bad.items()):
+        ctx.ob('R10.10', f'simulation:{why}', loc, f'strip_whitespace + reindent reach the normal form on {n} statement trees', False, f'{len(items)} case(s): {why}, e.g. {items[:2]}')
